@@ -8,10 +8,11 @@ package c02
 
 import (
 	"bytes"
+	"context"
 	"encoding/json"
 	"fmt"
-	"os"
 	"io"
+	"os"
 	"runtime"
 	"strings"
 	"sync"
@@ -20,6 +21,8 @@ import (
 	"time"
 
 	"pgregory.net/rapid"
+
+	corelog "tunnox-core/internal/core/log"
 
 	"tunnox-core/verif/vkit"
 )
@@ -65,14 +68,14 @@ type Case struct {
 	WritesBA []int `json:"writes_ba,omitempty"`
 	Pace     int   `json:"pace"` // 0 none, 1 Gosched after every write, 2 100µs sleep every 16 writes
 	// short reads: cap per Read on the server's end of A's / B's connection and on the clients' ends
-	SrvReadCapA int `json:"srv_read_cap_a"`
-	SrvReadCapB int `json:"srv_read_cap_b"`
-	CliReadCapA int `json:"cli_read_cap_a"`
-	CliReadCapB int `json:"cli_read_cap_b"`
-	DataWithEOF bool   `json:"data_with_eof"` // the server's conns return the last bytes together with io.EOF
-	Limit       int64  `json:"limit"`         // BandwidthLimit, bytes/s, 0 = none
-	Attach      string `json:"attach"`        // before-start | after-start | after-first-write
-	Stream      bool   `json:"stream"`        // connections carry a StreamProcessor (TunnelOpen path) or are raw (StartServerTunnel path)
+	SrvReadCapA int    `json:"srv_read_cap_a"`
+	SrvReadCapB int    `json:"srv_read_cap_b"`
+	CliReadCapA int    `json:"cli_read_cap_a"`
+	CliReadCapB int    `json:"cli_read_cap_b"`
+	DataWithEOF bool   `json:"data_with_eof"`  // the server's conns return the last bytes together with io.EOF
+	Limit       int64  `json:"limit"`          // BandwidthLimit, bytes/s, 0 = none
+	Attach      string `json:"attach"`         // before-start | after-start | after-first-write
+	Stream      bool   `json:"stream"`         // connections carry a StreamProcessor (TunnelOpen path) or are raw (StartServerTunnel path)
 	Mini        bool   `json:"mini,omitempty"` // run through the mini-server: handshakes + TunnelOpen packets, bridge owned by SessionManager
 	// SpreadMs > 0: both writers spread their writes evenly over this many milliseconds (a tunnel that lives)
 	SpreadMs int `json:"spread_ms,omitempty"`
@@ -88,6 +91,11 @@ type Case struct {
 	// CrossNode (session rig): the target is attached on another node which forwards it to this node's
 	// CrossNodeListener; the TargetReady frame and the target's first bytes arrive in one TCP write
 	CrossNode bool `json:"cross_node,omitempty"`
+	// AdapterWS "A"/"B" (bridge rig): that end is attached through the WebSocket transport adapter
+	// (internal/protocol/adapter wsServerConn over a loopback gorilla pair); one client Write = one message
+	AdapterWS string `json:"adapter_ws,omitempty"`
+	// StorageOutage (session rig): every storage operation fails from the moment both ends are attached
+	StorageOutage bool `json:"storage_outage,omitempty"`
 	// StatsStall (bridge rig): traffic accounting is configured and its backend (CloudControl) hangs
 	// from the start until the harness has seen both ends closed
 	StatsStall bool `json:"stats_stall,omitempty"`
@@ -96,7 +104,7 @@ type Case struct {
 	PauseEnd  string `json:"pause_end,omitempty"`
 	PauseMs   int    `json:"pause_ms,omitempty"`
 	PausePipe int    `json:"pause_pipe,omitempty"`
-	Ending      Ending `json:"ending"`
+	Ending    Ending `json:"ending"`
 }
 
 func payload(n int, seed uint64) []byte {
@@ -306,6 +314,18 @@ func spreadGap(ms int, sizes []int, n int) time.Duration {
 	return time.Duration(ms) * time.Millisecond / time.Duration(writes)
 }
 
+func bitsLen(n int) int {
+	l := 0
+	for n > 0 {
+		l++
+		n >>= 1
+	}
+	if l == 0 {
+		l = 1
+	}
+	return l
+}
+
 func (e *end) closeClient() {
 	e.conn.Close()
 	e.srv.peerClosed.Store(true)
@@ -375,6 +395,14 @@ func runCase(c Case, boundScale int) (*failure, *obs) {
 	}
 	if ferr != nil {
 		return ferr, o
+	}
+	if r.setupErr != nil {
+		r.aN.Close()
+		r.bN.Close()
+		r.aS.Close()
+		r.bS.Close()
+		r.cleanup()
+		return r.setupErr, o
 	}
 	aN, bN, aS, bS := r.aN, r.bN, r.aS, r.bS
 	A := &end{name: "A", conn: aN, srv: aS, send: pAB, expect: pBA, readDone: make(chan struct{}), writeDone: make(chan struct{}), firstWrite: make(chan struct{})}
@@ -573,6 +601,9 @@ func runCase(c Case, boundScale int) (*failure, *obs) {
 	if af != nil {
 		return af, o
 	}
+	if c.StorageOutage {
+		r.outage(true) // both ends are attached: from now on the state store is down
+	}
 	startDone := r.ended
 	caseStart := time.Now()
 
@@ -630,6 +661,21 @@ func runCase(c Case, boundScale int) (*failure, *obs) {
 		if c.CrossNode {
 			ctxs += "/cross-node-target"
 		}
+		if c.AdapterWS != "" {
+			big := 0
+			for _, w := range append(append([]int{}, c.WritesAB...), c.WritesBA...) {
+				if w > big {
+					big = w
+				}
+			}
+			ctxs += "/adapter-websocket-end=" + c.AdapterWS
+			if big > 64*1024 {
+				ctxs += fmt.Sprintf("/message>%dKiB", 64*(1<<uint(bitsLen(big/65536)-1)))
+			}
+		}
+		if c.StorageOutage {
+			ctxs += "/storage-outage"
+		}
 		return "C02/loss/" + kind + "/" + l + "/" + dir + ctxs
 	}
 	state := func() string {
@@ -671,6 +717,9 @@ func runCase(c Case, boundScale int) (*failure, *obs) {
 				dir += "b->a"
 			}
 			where := r.name
+			if aS.reads.Load() == 0 && bS.reads.Load() == 0 && c.WSEnd == "" && c.AdapterWS == "" && !c.CrossNode {
+				where += "/bridge-never-read-either-end"
+			}
 			if c.CrossNode {
 				where += "/cross-node-target"
 			}
@@ -805,6 +854,12 @@ func runCase(c Case, boundScale int) (*failure, *obs) {
 	if c.WSEnd != "" {
 		kindKey += "/websocket-end=" + c.WSEnd
 	}
+	if c.AdapterWS != "" {
+		kindKey += "/adapter-websocket-end=" + c.AdapterWS
+	}
+	if c.StorageOutage {
+		kindKey += "/storage-outage-at-teardown"
+	}
 	// after the first close / failure: both ends observe closure within bounded time
 	if !waitFor(bound, func() bool { return isDone(A.readDone) && isDone(B.readDone) }) {
 		who := ""
@@ -887,10 +942,10 @@ func runCase(c Case, boundScale int) (*failure, *obs) {
 	}
 	// towards a WebSocket end the harness only sees what the client-side relay handed on, not what the
 	// server wrote into the socket
-	if c.WSEnd == "A" {
+	if c.WSEnd == "A" || c.AdapterWS == "A" {
 		recvCtr = aS.BytesWritten() - baseA
 	}
-	if c.WSEnd == "B" {
+	if c.WSEnd == "B" || c.AdapterWS == "B" {
 		sentCtr = bS.BytesWritten() - baseB
 	}
 	if got, want := sentCtr, bS.BytesWritten()-baseB; got != want {
@@ -902,7 +957,7 @@ func runCase(c Case, boundScale int) (*failure, *obs) {
 	// the server let go of both connections
 	// (an end behind a relay - WebSocket client, remote node - learns it a moment after the relay does)
 	grace := 10 * time.Millisecond
-	if c.WSEnd != "" || c.CrossNode {
+	if c.WSEnd != "" || c.CrossNode || c.AdapterWS != "" {
 		grace = bound
 	}
 	if !waitFor(grace, func() bool { return aS.IsClosed() && bS.IsClosed() }) {
@@ -954,7 +1009,7 @@ func capBucket(n int) string {
 }
 
 func caseSig(c Case) string {
-	return fmt.Sprintf("%v|%s|%s|%d|%s|%s|%v|%s|%s|%d|%d|%v", fmt.Sprint(c.Mini, c.SameClient, c.HeartbeatMs > 0, c.WSEnd, c.CrossNode, c.StatsStall, c.PauseMs > 0), sizeBucket(c.LenAB), sizeBucket(c.LenBA), c.Limit, c.Ending.Kind+c.Ending.ErrKind, c.Attach, c.Stream,
+	return fmt.Sprintf("%v|%s|%s|%d|%s|%s|%v|%s|%s|%d|%d|%v", fmt.Sprint(c.Mini, c.SameClient, c.HeartbeatMs > 0, c.WSEnd, c.CrossNode, c.StatsStall, c.PauseMs > 0, c.AdapterWS, c.StorageOutage), sizeBucket(c.LenAB), sizeBucket(c.LenBA), c.Limit, c.Ending.Kind+c.Ending.ErrKind, c.Attach, c.Stream,
 		capBucket(c.SrvReadCapA), capBucket(c.SrvReadCapB), len(c.WritesAB), len(c.WritesBA), c.DataWithEOF)
 }
 
@@ -1102,6 +1157,12 @@ func check(t vkit.TB, c Case) {
 	}
 	if c.CrossNode {
 		vkit.Class("feat:target attached through the cross-node listener")
+	}
+	if c.AdapterWS != "" {
+		vkit.Class("feat:adapter websocket end=" + c.AdapterWS)
+	}
+	if c.StorageOutage {
+		vkit.Class("feat:storage outage at tear-down")
 	}
 	if c.StatsStall {
 		vkit.Class("feat:stats backend hangs at close")
@@ -1269,6 +1330,45 @@ func genEnding(t *rapid.T, c Case) Ending {
 
 // ---------------------------------------------------------------------------
 // tests
+
+// yieldLogger is a log sink that takes its time: every call yields the processor, as a sink doing
+// I/O would. It widens windows between a state change and the log line that follows it.
+type yieldLogger struct{}
+
+func yield() {
+	runtime.Gosched()
+	runtime.Gosched()
+}
+func (yieldLogger) Debug(args ...interface{})                          { yield() }
+func (yieldLogger) Info(args ...interface{})                           { yield() }
+func (yieldLogger) Warn(args ...interface{})                           { yield() }
+func (yieldLogger) Error(args ...interface{})                          { yield() }
+func (yieldLogger) Debugf(format string, args ...interface{})          { yield() }
+func (yieldLogger) Infof(format string, args ...interface{})           { yield() }
+func (yieldLogger) Warnf(format string, args ...interface{})           { yield() }
+func (yieldLogger) Errorf(format string, args ...interface{})          { yield() }
+func (l yieldLogger) WithField(string, interface{}) corelog.Logger     { return l }
+func (l yieldLogger) WithFields(map[string]interface{}) corelog.Logger { return l }
+func (l yieldLogger) WithError(error) corelog.Logger                   { return l }
+func (l yieldLogger) WithContext(context.Context) corelog.Logger       { return l }
+
+// TestAttachRace: many small tunnels whose target attaches while Bridge.Start is already waiting for
+// it (the normal order: the source creates the bridge), with a log sink that yields on every line.
+// After the attach, bytes must flow both ways and the close of one end must reach the other.
+func TestAttachRace(t *testing.T) {
+	corelog.SetDefault(yieldLogger{})
+	defer corelog.SetDefault(corelog.NewNopLogger())
+	property(t, 2400, 24000, func(t *rapid.T) {
+		c := Case{Attach: "after-start", Stream: rapid.Bool().Draw(t, "stream")}
+		c.LenAB = rapid.IntRange(1, 3000).Draw(t, "lenAB")
+		c.LenBA = rapid.IntRange(1, 3000).Draw(t, "lenBA")
+		c.SeedAB = uint64(rapid.IntRange(0, 65535).Draw(t, "seedAB"))
+		c.SeedBA = uint64(rapid.IntRange(0, 65535).Draw(t, "seedBA"))
+		c.Pace = rapid.SampledFrom([]int{0, 1}).Draw(t, "pace")
+		c.Ending = Ending{Kind: rapid.SampledFrom([]string{"drain-close-A", "drain-close-B", "flush-close-A", "flush-close-B"}).Draw(t, "ending")}
+		check(t, c)
+	})
+}
 
 // TestPipe: no limit or a limit far above the traffic — many cases, large payloads.
 func TestPipe(t *testing.T) {
@@ -1496,6 +1596,48 @@ func TestSessionWebSocketSlowConsumer(t *testing.T) {
 		c.Ending = Ending{Kind: []string{"drain-close-A", "drain-close-B"}[(sh/2)%2]}
 		check(t, c)
 	}
+}
+
+// TestAdapterWebSocket: one end attached through the WebSocket transport adapter; its client writes
+// single messages around 64 KiB, 256 KiB and 1 MiB.
+func TestAdapterWebSocket(t *testing.T) {
+	property(t, 160, 1600, func(t *rapid.T) {
+		c := Case{Stream: rapid.Bool().Draw(t, "stream"), AdapterWS: rapid.SampledFrom([]string{"A", "B"}).Draw(t, "end")}
+		big := rapid.SampledFrom([]int{65535, 65536, 65537, 262143, 262144, 262145, 300000, 524288, 1048576, 1048577}).Draw(t, "message")
+		n := big*rapid.IntRange(1, 2).Draw(t, "messages") + rapid.IntRange(0, 5000).Draw(t, "tail")
+		other := genLen(t, "other", 200000, 200000, 0)
+		if c.AdapterWS == "A" {
+			c.LenAB, c.LenBA, c.WritesAB = n, other, []int{big}
+			c.WritesBA = genWrites(t, "writesBA", c.LenBA, 2000)
+		} else {
+			c.LenBA, c.LenAB, c.WritesBA = n, other, []int{big}
+			c.WritesAB = genWrites(t, "writesAB", c.LenAB, 2000)
+		}
+		c.SeedAB = uint64(rapid.IntRange(0, 65535).Draw(t, "seedAB"))
+		c.SeedBA = uint64(rapid.IntRange(0, 65535).Draw(t, "seedBA"))
+		c.Limit = rapid.SampledFrom([]int64{0, 0, 10 * 1024 * 1024}).Draw(t, "limit")
+		c.Attach = rapid.SampledFrom([]string{"before-start", "after-start", "after-first-write"}).Draw(t, "attach")
+		c.Ending = Ending{Kind: rapid.SampledFrom([]string{"drain-close-A", "drain-close-B", "flush-close-A", "flush-close-B", "early-close-A", "early-close-B"}).Draw(t, "ending")}
+		switch c.Ending.Kind {
+		case "early-close-A":
+			c.Ending.K = rapid.IntRange(0, c.LenAB).Draw(t, "k")
+		case "early-close-B":
+			c.Ending.K = rapid.IntRange(0, c.LenBA).Draw(t, "k")
+		}
+		check(t, c)
+	})
+}
+
+// TestSessionStorageOutage: session-rig tunnels (routing table configured) whose state store goes
+// down once both ends are attached: every ending must still close both ends and the server must
+// forget the tunnel (bridge map) within the bound, whatever the storage answers at tear-down.
+func TestSessionStorageOutage(t *testing.T) {
+	property(t, 240, 2000, func(t *rapid.T) {
+		c := genCase(t, []int64{0, 0, 0, 10 * 1024 * 1024})
+		c.Mini, c.Stream, c.StorageOutage = true, true, true
+		c.SameClient = rapid.IntRange(0, 4).Draw(t, "sameClient") == 0
+		check(t, c)
+	})
 }
 
 // TestCloseRace (E3): Bridge.Close() from 1..3 goroutines released by a spin flag while both copy
